@@ -13,6 +13,11 @@ func H_C18(tbl, stage int) {
 	// recorded finding: the routers tokenise paths with empty segments or without a leading slash differently
 	verifKnown("routers-noncanonical", vOr(!strings.HasPrefix(q.path, "/"), strings.Contains(q.path, "//")))
 	verifKnown("jsr311-newline", strings.Contains(q.path, "\n"))
+	if tbl == 27 {
+		// recorded finding: the routers measure specificity differently (literal segments vs literal characters)
+		segsK, _ := vSegments(q.path)
+		verifKnown("routers-specificity-measure", vAnd(refPathMatch(h1.flat[0].toks, segsK) == refYes, refPathMatch(h1.flat[1].toks, segsK) == refYes))
+	}
 	o1 := h1.run(c1, q)
 	o2 := h2.run(c2, q)
 	if o1.invoked >= 0 {
